@@ -245,6 +245,18 @@ func c02Unit(name string, lvl int) core.Unit {
 			nslot++
 			a := u.Vers[ai]
 			probes := append(append([]int{}, Vs...), ai)
+			// up to 3 Compare-equal members with another spelling (build metadata, prefixes,
+			// padding zeros): '=' and '!=' must not be textual
+			eq := 0
+			for vi := range u.Vers {
+				if vi == ai || eq >= 3 {
+					continue
+				}
+				if c, p := eco.SafeCompare(u.Vers[vi], a); p == nil && c == 0 {
+					probes = append(probes, vi)
+					eq++
+				}
+			}
 			for _, op := range syn.Ops {
 				rs := op + u.Strs[ai] + syn.SingleSuffix
 				check(rs, func(v eco.Ver) (bool, bool) {
@@ -406,7 +418,7 @@ func init() {
 				"distinct_nontrivial":           r.Counters["true_results"],
 			}
 		},
-		Rule:        "per ecosystem: every comparator of the documented syntax table x every bound of a stride sub-universe of U_E (plus one bound per distinct letter, every member with a component of 5 or more digits, and every accepted version whose identifiers contain a word of some range syntax: and/or/x/to/v... alone or embedded, under 14 separator templates); every accepted member of the one-slot substitution family of the ecosystem's typical shapes x every comparator x (40 stride probes + the bound itself) x every probe; every comparator pair x AND separator x bound pair x probe; every comparator pair x OR separator; (x AND y) OR z. Expected value computed from the real Compare. states = distinct range strings built; transitions = range parses + Contains calls; distinct_nontrivial = evaluations whose result is true (range and probe interact non-vacuously).",
+		Rule:        "per ecosystem: every comparator of the documented syntax table x every bound of a stride sub-universe of U_E (plus one bound per distinct letter, every member with a component of 5 or more digits, and every accepted version whose identifiers contain a word of some range syntax: and/or/x/to/v... alone or embedded, under 14 separator templates); every accepted member of the one-slot substitution family of the ecosystem's typical shapes x every comparator x (40 stride probes + the bound itself + up to 3 Compare-equal respellings of it) x every probe; every comparator pair x AND separator x bound pair x probe; every comparator pair x OR separator; (x AND y) OR z. Expected value computed from the real Compare. states = distinct range strings built; transitions = range parses + Contains calls; distinct_nontrivial = evaluations whose result is true (range and probe interact non-vacuously).",
 		Assumptions: []string{"bounds beginning with a comparator character or containing separator characters are out of scope (property text)", "syntax table (comparators, separators) is written from the documentation; maven has no comparator syntax"},
 	})
 }
